@@ -72,7 +72,11 @@ impl ValueStack {
     /// Returns Nil if the stack is empty
     #[inline]
     pub fn pop(&mut self) -> Value {
-        let count = self.count.saturating_sub(1);
+        if self.count == 0 {
+            // the slots above `count` may hold stale values (pop_n, clear_until)
+            return Value::Nil;
+        }
+        let count = self.count - 1;
         let value = self.data[count];
         self.count = count;
         self.data[self.count] = Value::Nil;
